@@ -2,6 +2,7 @@ package share
 
 import (
 	"fmt"
+	"math"
 )
 
 // Sequence represents a contiguous sequence of shares that are part of the
@@ -77,7 +78,12 @@ func numberOfSharesNeeded(firstShare Share) (sharesUsed int, err error) {
 	if firstShare.IsCompactShare() {
 		return CompactSharesNeeded(sequenceLen), nil
 	}
-	return SparseSharesNeeded(sequenceLen), nil
+	// the signer of a version 1 sequence takes up payload bytes of the first share
+	totalLen := uint64(sequenceLen) + uint64(len(GetSigner(firstShare)))
+	if totalLen > math.MaxUint32 {
+		return 0, fmt.Errorf("sequence length %d is too large", sequenceLen)
+	}
+	return SparseSharesNeeded(uint32(totalLen)), nil
 }
 
 // CompactSharesNeeded returns the number of compact shares needed to store a
